@@ -26,6 +26,7 @@ def Ref(cls: str) -> T: return T("ref", (cls,))
 def Enum(name: str) -> T: return T("enum", (name,))
 def List(e: T) -> T: return T("list", (e,))
 def Dict(k: T, v: T) -> T: return T("dict", (k, v))
+def DefaultDict(k: T, v: T) -> T: return T("dict", (k, v, "default0"))
 def Set(k: T) -> T: return T("set", (k,))
 def Tuple(*ts: T) -> T: return T("tuple", tuple(ts))
 def Opt(t: T) -> T: return T("opt", (t,))
